@@ -336,10 +336,11 @@ class Repo:
 
     # ------------------------------------------------------------------ types
     def types(self, f: FuncInfo) -> "TypeEnv":
-        if f.qn not in self._types_cache:
-            self._types_cache[f.qn] = None  # recursion guard
-            self._types_cache[f.qn] = TypeEnv(self, f)
-        te = self._types_cache[f.qn]
+        k = f"{f.qn}#{id(f.node)}"
+        if k not in self._types_cache:
+            self._types_cache[k] = None  # recursion guard
+            self._types_cache[k] = TypeEnv(self, f)
+        te = self._types_cache[k]
         if te is None:
             return TypeEnv.__new__(TypeEnv)  # inert env during recursion
         return te
